@@ -182,3 +182,17 @@ def jobs(tier, seed):
         jobs.append({"harness": "roundtrip", "params": {"cfg": cfg, "scaffold": sc, "spec": spec, "name": name}, "weight": 4, "cpu_cap": 1200, "wall_cap": 1800})
     jobs.append({"harness": "token", "params": {}, "weight": 5, "cpu_cap": 1200, "wall_cap": 1800})
     return jobs
+
+
+def thorough_extra(seed):
+    jobs = []
+    spec = {n: dict(NOCR) for n in "abcdefgh"}
+    _sharded(jobs, {"cfg": CM, "scaffold": free_doc(2, "\n"), "name": "free-cm"}, weight=8, spec=spec)
+    for name, cfg, sc in CTX:
+        sc2 = [p for q in sc for p in ([q, {"v": "b"}] if q == {"v": "a"} else [q])]
+        if name in ("olist-start", "nested-image", "empty-inline", "fence-info", "hard-soft"):
+            jobs.append({"harness": "roundtrip", "params": {"cfg": cfg, "scaffold": sc2, "spec": spec, "name": name + "-2free"}, "weight": 20})
+    for j in jobs:
+        j["cpu_cap"] = 6000
+        j["wall_cap"] = 7200
+    return jobs
